@@ -224,3 +224,47 @@ def c15(ctx, replay):
 def c20(ctx, replay):
     wsconn_model(ctx, ["quick"] if ctx.quick() else ["quick", "thorough"])
     conc_campaign(ctx, 300 if ctx.quick() else 3000, SIG_C20)
+
+
+@check("C06")
+def c06(ctx, replay):
+    wsconn_model(ctx, ["quick"] if ctx.quick() else ["quick", "thorough"])
+    rows = ctx.path("close.ndjson")
+    rec, _ = ctx.tlc("WSCloseRows", "Rows.cfg", env={"OUT": rows}, workers=4, name="close-decision-table")
+    rep = ctx.drive("closetab", ["-rows", rows, "-seed", ctx.seed])
+    ctx.absorb(rep)
+    ctx.extra["exhaustive"] = True
+    conc_campaign(ctx, 200 if ctx.quick() else 3000, SIG_C06)
+    ctx.extra["rule"] = ("decision table written by TLC from WSBase!ValidWireCode: Close(code, reason) for every code -1..65536 and 2^31-1 with reason "
+                         "lengths 0 and 123, reason lengths {0,1,122,123,124,125,130} on 20 boundary codes, peers that echo / answer another code / "
+                         "stay silent; every 16-bit code as an incoming Close frame; both roles; plus seeded concurrent executions validating "
+                         "'once closed everything fails' and the Close/CloseNow return values; distinct = distinct table rows")
+    ctx.assumptions += ["Close returning nil without a matching echo is recorded, not judged: the statement fixes the result only when the peer echoes"]
+
+
+@check("C17")
+def c17(ctx, replay):
+    import subprocess
+    rec, _ = ctx.tlc("WSMask", "WSMask.cfg", name="maskGo-path-model+composition")
+    ctx.count_model(rec)
+    rows = ctx.path("mask.ndjson")
+    ctx.tlc("WSMaskRows", "Rows.cfg", env={"OUT": rows}, workers=4, name="mask-table")
+    args = ["-rows", rows, "-seed", ctx.seed]
+    if not ctx.quick():
+        args.append("-thorough")
+    rep = ctx.drive("mask", args)
+    ctx.absorb(rep)
+    # page-boundary placement: an out-of-bounds read faults, which kills the child
+    p = subprocess.run([ctx.driver(), "mask", "-pageguard"], stdout=subprocess.PIPE, stderr=subprocess.PIPE, text=True)
+    ctx.evaluations += 1
+    if p.returncode != 0:
+        if "SIGSEGV" in p.stderr or "fault" in p.stderr or p.returncode < 0:
+            ctx.violations.append(("mask-out-of-bounds-access", 1, {"sig": "mask-out-of-bounds-access", "detail": p.stderr[-800:], "case": {"cmd": "wsdrive mask -pageguard"}}))
+        else:
+            raise Infra("pageguard run failed: " + p.stderr[-500:])
+    ctx.extra["exhaustive"] = True
+    ctx.extra["rule"] = ("every length 0..4200 x every start alignment 0..63 x maskGo, mask() and the amd64 assembly, keys with four distinct bytes "
+                         "(one rotation per cell in quick, all four in thorough), all 2-way splits for n<=300 (3-way for n<=64 in thorough, seeded above), "
+                         "64 guard bytes either side, buffers ending/starting at an unmapped page; distinct = (length, alignment, implementation) cells")
+    ctx.assumptions += ["the XOR and memory safety are observed through the harness projection (key-byte index per position, guard bytes, page faults); "
+                        "TLC decides pattern, rotation, composability and the block decomposition of maskGo", "arm64 assembly cannot be executed in this sandbox"]
